@@ -60,7 +60,7 @@ def geoObj (j : Json) : Except String Obj := do
     | .ok b => geoBox b |>.mapError (fun e => s!"{e} (object {id})")
     | .error e => throw e
   pure { id := id, parent := strD j "parent", shape := strD j "shape", box := b,
-         olabel := ← optBox j "olabel", oicon := ← optBox j "oicon",
+         olabel := ← optBox j "olabel", oicon := ← optBox j "oicon", oiconMax := ← optBox j "oiconMax",
          is3d := boolD j "3d", multiple := boolD j "multiple", inSeq := boolD j "inSeq", isSeq := boolD j "isSeq", isGrid := boolD j "isGrid",
          constNear := boolD j "constNear", container := boolD j "container", near := strD j "near", labelPos := strD j "labelPos", labelH := intD j "labelH",
          labelW := intD j "labelW", hasLabel := boolD j "hasLabel",
